@@ -40,6 +40,8 @@ def config(rng, tier):
         "edits": rng.random() < 0.7,
         "interval_share": rng.choice([0.6, 0.6, 1.0, 0.0, 0.85]),
         "maxn": rng.choice([8] * 16 + [24, 40, 120]),
+        # tier-name universe: the property's 4 plain names, or names with awkward shapes, or 10 names
+        "names": rng.choice(["abcd"] * 6 + ["prefix", "odd", "unicode", "many"]),
     }
 
 
@@ -351,6 +353,8 @@ def generate(run, rng):
                     continue
             n = len(names)
             idx = None if rng.random() < 0.4 else rng.randrange(-2, n + 3)
+            if idx is not None and rng.random() < 0.08:
+                idx = rng.choice([-100, 1000, True, False])
             mode = g.pick(REPORT)
             if fault and tag is None:
                 if rng.random() < 0.4:
